@@ -85,6 +85,16 @@ def _do(call, scratch):
     import numpy as np
     from harness import targets
     op = call["op"]
+    if op == "plant_rounds":
+        # what an earlier completed generation with MORE deduplication rounds leaves behind in the same directory
+        import shutil
+        d = os.path.join(scratch, "esr", "function_library", call["runname"], "compl_%d" % call["n"])
+        for stem in ("inv_subs_%d_round_%d.txt", "inv_idx_%d_round_%d.txt"):
+            src = os.path.join(d, stem % (call["n"], 0))
+            if os.path.exists(src):
+                for k in (7, 8):
+                    shutil.copy(src, os.path.join(d, stem % (call["n"], k)))
+        return
     with contextlib.redirect_stdout(io.StringIO()):
         if op == "gen":
             targets.gen(call["runname"], call["n"], call.get("basis"))
